@@ -27,6 +27,8 @@ def gen_cases(rng, n, tier):
             + B.all_cfgs('blog', dict(mgr_excl=True))[::3] + B.all_cfgs('blog', dict(mgr_excl=True, excl_notes=True))[::5]
             # the many-to-many relationship excluded on both sides: no association version table, link changes unversioned
             + B.all_cfgs('blog', dict(excl_labels=True))[::3]
+            # the excluded column mapped under an attribute name that differs from its column name
+            + B.all_cfgs('blog', dict(alias_x=True))[::3]
             # the exclusion declared two levels up, the class in between with a __versioned__ of its own
             + B.all_cfgs('blog', dict(mixin_excl3=True))[::3]
             # a hierarchy whose base class excludes a column; subclasses inherit __versioned__ or declare their own
